@@ -75,6 +75,7 @@ type Sched struct {
 	Kind          string
 	TornNum       int
 	TornDen       int
+	Ambient       int
 }
 
 func NoFault() (int, string) { return -1, simos.KNone }
@@ -112,6 +113,7 @@ func RunInProcess(inv Invocation, inDir, outDir string, s Sched, root string) (r
 	verifhook.EventLog = func(e string) { events = append(events, e) }
 	simos.PathMap = func(p string) string { return runDirRe.ReplaceAllString(strings.TrimPrefix(p, root), "") }
 	simos.CLIMode = false
+	simos.Ambient, verifhook.Ambient = s.Ambient, s.Ambient
 	simos.Reset(s.FaultAt, s.Kind, s.TornNum, s.TornDen)
 	func() {
 		defer func() {
@@ -144,6 +146,7 @@ func RunInProcess(inv Invocation, inDir, outDir string, s Sched, root string) (r
 		res.Seen[k] = v
 	}
 	simos.Reset(-1, simos.KNone, 1, 2)
+	simos.Ambient, verifhook.Ambient = 0, 0
 	verifhook.ResetRun(nil, nil)
 	verifhook.EventLog = nil
 	return
@@ -156,7 +159,7 @@ func RunCLI(cli string, inv Invocation, inDir, outDir string, s Sched, tapeVals 
 		panic(err)
 	}
 	p := cliplan.Plan{Tape: tapeVals, AllActive: s.Active == nil, ClockOffsetNs: int64(s.ClockOffset), FaultAt: s.FaultAt, Kind: s.Kind,
-		TornNum: s.TornNum, TornDen: s.TornDen, Log: planFile + ".log", Masked: masked}
+		TornNum: s.TornNum, TornDen: s.TornDen, Log: planFile + ".log", Masked: masked, Ambient: s.Ambient}
 	for id := range s.Active {
 		p.Active = append(p.Active, id)
 	}
